@@ -26,9 +26,13 @@ where
     if let Some(restrictions) = restrictions {
         writeln!(
             writer,
-            "  fn check_restrictions(&self, _restrictions: Option<Rc<restrictions::Restrictions>>) -> error::SoapResult<()>  {{"
+            "  fn check_restrictions(&self, inherited: Option<Rc<restrictions::Restrictions>>) -> error::SoapResult<()>  {{"
         )?;
 
+        // a type derived from this one passes its own facets down: they apply to the value as well
+        writeln!(writer, "        if inherited.is_some() {{")?;
+        writeln!(writer, "            self.value.check_restrictions(inherited)?;")?;
+        writeln!(writer, "        }}")?;
         writeln!(writer, "        let restrictions = Some(")?;
         restrictions.write_xml(writer)?;
         writeln!(writer, ");")?;
